@@ -372,6 +372,38 @@ private:
         {
             ctx_manager->get(level).actual_block_length = actual_block_length;
         }
+
+        // the value has to fit into header's `blockLength`, otherwise the
+        // generated header filler doesn't compile
+        const auto header = std::get_if<sbe::composite>(
+            get_encoding(get_header_type_name(level)));
+        assert(header);
+        const auto& block_length_type =
+            get_level_header_element(*header, "level", "blockLength").first;
+        const auto final_block_length =
+            ctx_manager->get(level).actual_block_length;
+        if(!value_fits_into_type(
+               std::to_string(final_block_length),
+               block_length_type.primitive_type))
+        {
+            throw_error(
+                "{}: `blockLength` ({}) cannot be represented by `{}` header's "
+                "`blockLength` type (`{}`)",
+                level.location,
+                final_block_length,
+                header->name,
+                block_length_type.primitive_type);
+        }
+    }
+
+    std::string_view get_header_type_name(const sbe::message&) const
+    {
+        return schema->header_type;
+    }
+
+    static std::string_view get_header_type_name(const sbe::group& g)
+    {
+        return g.dimension_type;
     }
 
     std::size_t get_encoding_size(const sbe::encoding& enc)
